@@ -8,6 +8,9 @@ import Proofs.C08_Blocks
 import Proofs.C08_Numbering
 import Proofs.C08_Lists
 import Proofs.C08_Convert
+import Proofs.C08_Xml
+import Proofs.C08_XmlNumbering
+import Proofs.C09_Convert
 namespace Mammoth
 
 /-! ## 1. the default style map -/
@@ -451,5 +454,293 @@ example : readNumberingProps { numbering := c08_exNumbering } (some S!"Fancy")
     [.elem S!"w:numId" [(S!"w:val", S!"9")] [], .elem S!"w:ilvl" [(S!"w:val", S!"0")] []] = .ok none := by rfl
 example : readNumberingProps { numbering := c08_exNumbering } (some S!"Fancy")
     [.elem S!"w:numId" [(S!"w:val", S!"9")] []] = .ok (some ⟨S!"0", true⟩) := by rfl
+
+/-! ## 6. END TO END: from the XML of a paragraph
+
+Specification on the XML (Proofs/C08_Xml.lean; `c11x_named` / `c11x_propVal` look at the first child element with a
+given name and at the last `w:val` attribute, independently of the reader's helpers): `c08x_pPr cs` — the children of
+the paragraph's first `w:pPr`; `c08x_markDeleted cs` — `w:pPr/w:rPr/w:del` exists (the paragraph mark is a tracked
+deletion: the reader merges such a paragraph into the next one); `c08x_style env pPr` — `w:pStyle/@w:val`, its name among
+the paragraph styles of styles.xml, and the warning if it is undefined; `c08x_numPr pPr` — the pair
+(`w:numPr/w:numId/@w:val`, `w:numPr/w:ilvl/@w:val`); `c08x_numbering env pPr` — the numbering the paragraph should get. -/
+
+/-- THE SPECIFIED NUMBERING, case by case: the paragraph's own `w:numPr` with BOTH a `w:numId` and a `w:ilvl` decides —
+    `find_level` through the numbering definitions (`C08_findLevel_direct` / `_link` / `_dangling`), whatever the
+    paragraph style is; otherwise the level whose `w:pStyle` is the paragraph's style id; otherwise none -/
+theorem C08_xml_numbering_cases (env : REnv) (pPr : List XmlNode) :
+    (∀ numId lvl, c08x_numPr pPr = (some numId, some lvl) →
+      c08x_numbering env pPr = findLevel env.numbering (c08x_fuel env) (some numId) lvl) ∧
+    (∀ sid, (c08x_numPr pPr).1 = none ∨ (c08x_numPr pPr).2 = none → (c08x_style env pPr).1.1 = some sid →
+      c08x_numbering env pPr = .ok (findLevelByStyle env.numbering sid)) ∧
+    ((c08x_numPr pPr).1 = none ∨ (c08x_numPr pPr).2 = none → (c08x_style env pPr).1.1 = none →
+      c08x_numbering env pPr = .ok none) := by
+  unfold c08x_numbering
+  refine ⟨fun numId lvl h => by rw [h], fun sid h hs => ?_, fun h hs => ?_⟩
+  · rcases hp : c08x_numPr pPr with ⟨a, b⟩
+    simp only [hp] at h
+    rcases h with h | h
+    · subst h; simp [hs]
+    · subst h; cases a <;> simp [hs]
+  · rcases hp : c08x_numPr pPr with ⟨a, b⟩
+    simp only [hp] at h
+    rcases h with h | h
+    · subst h; simp [hs]
+    · subst h; cases a <;> simp [hs]
+
+/-- READER HALF.  A `w:p` (any attributes) whose paragraph mark is not deleted, whose children `cs` — preceded by
+    what earlier deleted paragraphs deferred — are read as `r`: the reader returns, or fails, as the resolution of
+    the specified numbering does; on success the result is ONE paragraph element with the style read off the `w:pPr`,
+    its `numbering` field equal to the specified numbering, around the children's elements; followed by the extra
+    elements of its content. -/
+theorem C08_xml_paragraph_numbering (env : REnv) (f : Nat) (st st1 : RState) (as : Attrs) (cs : List XmlNode)
+    (r : ReadResult)
+    (hdel : c08x_markDeleted cs = false)
+    (hcs : readAllWith (readElem env f) { st with deleted := [] } (st.deleted ++ cs) = .ok (r, st1)) :
+    readElem env (f+1) st (.elem S!"w:p" as cs) =
+      (c08x_numbering env (c08x_pPr cs)).map fun num =>
+        ({ elements := .paragraph { styleId := (c08x_style env (c08x_pPr cs)).1.1,
+                                    styleName := (c08x_style env (c08x_pPr cs)).1.2,
+                                    numbering := num } r.elements :: r.extra,
+           extra := [],
+           messages := (c08x_style env (c08x_pPr cs)).2 ++ r.messages }, st1) := by
+  rw [c08x_reader_paragraph, hdel, hcs]
+  cases c08x_numbering env (c08x_pPr cs) <;> rfl
+
+/-- a paragraph whose mark is deleted yields nothing itself; its children are deferred to the next paragraph -/
+theorem C08_xml_deleted_paragraph (env : REnv) (f : Nat) (st : RState) (as : Attrs) (cs : List XmlNode)
+    (hdel : c08x_markDeleted cs = true) :
+    readElem env (f+1) st (.elem S!"w:p" as cs) = .ok ({}, { st with deleted := st.deleted ++ cs }) := by
+  rw [c08x_reader_paragraph, hdel]; rfl
+
+/-- NUMBERING DEFINITIONS FROM numbering.xml, direct case.  The environment's numbering was read from the root
+    children `root` of numbering.xml (`hn`); the paragraph's `w:numPr` names num `numId` and level `lvl` (`hnp`); the
+    num points to an abstract numbering (`h1`, `h2`) without numbering-style link (`h3`) that has a level filed under
+    `lvl` (`h4`).  Then the specified numbering of the paragraph is level `lvl` itself, and it is ordered iff the
+    `w:numFmt` of a `w:lvl` element with `w:ilvl` = `lvl` of a `w:abstractNum` with that id is not `bullet`. -/
+theorem C08_xml_numbering_from_definitions (env : REnv) (root : List XmlNode) (styles : Styles)
+    (pPr : List XmlNode) (numId lvl absId : Str) (an : AbstractNum) (l : AbsLevel)
+    (hn : readNumberingXml root styles = .ok env.numbering)
+    (hnp : c08x_numPr pPr = (some numId, some lvl))
+    (h1 : lookupLast (some numId) env.numbering.nums = some absId)
+    (h2 : lookupLast (some absId) env.numbering.abstractNums = some an)
+    (h3 : an.numStyleLink = none)
+    (h4 : lookupLast lvl an.levels = some l) :
+    c08x_numbering env pPr = .ok (some ⟨lvl, l.isOrdered⟩) ∧
+    ∃ ap ∈ c11x_named S!"w:abstractNum" root, c11x_attr S!"w:abstractNumId" ap.1 = some absId ∧
+      ∃ lp ∈ c11x_named S!"w:lvl" ap.2, c11x_attr S!"w:ilvl" lp.1 = some lvl ∧
+        l.isOrdered = decide ((c11x_propVal S!"w:numFmt" lp.2).join ≠ some S!"bullet") :=
+  c08x_numbering_direct_xml env root styles pPr numId lvl absId an l hn hnp h1 h2 h3 h4
+
+/-- FROM THE XML TO THE LIST ITEM.  Under the default style map (`hmap`, `hup`), a `w:p` whose mark is not deleted
+    (`hdel`), whose children are read as `r` (`hcs`), whose specified numbering resolves to level index `k` < 5 of kind
+    `o` (`hnum`), and whose style is not caught by an earlier mapping (`hs`: style id not `Heading1..6`; `hn`: style
+    name absent or not a heading / note name): it is read as one paragraph element, and THAT element is converted to
+    the single node `c08_listNode k o content` — `ul|ol > li >` (k times) `ol|ul > li:fresh >` the nodes of its
+    children (`C08_list_path_node`). -/
+theorem C08_xml_to_block (env : REnv) (cfg : Cfg) (hdr : Bool) (f : Nat) (st st1 : RState) (as : Attrs)
+    (cs : List XmlNode) (r : ReadResult) (k : Nat) (o : Bool)
+    (hmap : cfg.styleMap = defaultStyleMap) (hup : cfg.upper = upperAscii)
+    (hdel : c08x_markDeleted cs = false)
+    (hcs : readAllWith (readElem env f) { st with deleted := [] } (st.deleted ++ cs) = .ok (r, st1))
+    (hnum : c08x_numbering env (c08x_pPr cs) = .ok (some ⟨natToStr k, o⟩)) (hk : k < 5)
+    (hs : c08_notHeadingId (c08x_style env (c08x_pPr cs)).1.1 = true)
+    (hn : c08_noEarlierName (c08x_style env (c08x_pPr cs)).1.2 = true) :
+    readElem env (f+1) st (.elem S!"w:p" as cs) =
+      .ok ({ elements := .paragraph { styleId := (c08x_style env (c08x_pPr cs)).1.1,
+                                      styleName := (c08x_style env (c08x_pPr cs)).1.2,
+                                      numbering := some ⟨natToStr k, o⟩ } r.elements :: r.extra,
+             extra := [],
+             messages := (c08x_style env (c08x_pPr cs)).2 ++ r.messages }, st1) ∧
+    visit cfg hdr (.paragraph { styleId := (c08x_style env (c08x_pPr cs)).1.1,
+                                styleName := (c08x_style env (c08x_pPr cs)).1.2,
+                                numbering := some ⟨natToStr k, o⟩ } r.elements) =
+      (do let content ← visitAll cfg hdr r.elements
+          pure [c08_listNode k o (if cfg.ignoreEmpty then content else .forceWrite :: content)]) := by
+  refine ⟨by rw [C08_xml_paragraph_numbering env f st st1 as cs r hdel hcs, hnum]; rfl, ?_⟩
+  rw [c08_visit_paragraph cfg hdr _ _ _ (c08_listPath k o)
+    (by rw [hmap, hup]; exact c08_path_list k hk o _ _ hs hn) rfl]
+  simp only [c08_wrap_listPath]
+
+/-- …TO A HEADING, by style id: `w:pStyle` = `Heading<n>` gives `h<n>:fresh`, whatever the numbering -/
+theorem C08_xml_to_block_heading_id (env : REnv) (cfg : Cfg) (hdr : Bool) (f : Nat) (st st1 : RState) (as : Attrs)
+    (cs : List XmlNode) (r : ReadResult) (n : Nat) (num : Option NumLevel)
+    (hmap : cfg.styleMap = defaultStyleMap) (hup : cfg.upper = upperAscii)
+    (hdel : c08x_markDeleted cs = false)
+    (hcs : readAllWith (readElem env f) { st with deleted := [] } (st.deleted ++ cs) = .ok (r, st1))
+    (hnum : c08x_numbering env (c08x_pPr cs) = .ok num)
+    (h1 : 1 ≤ n) (h6 : n ≤ 6) (hid : (c08x_style env (c08x_pPr cs)).1.1 = some (c08_hId n)) :
+    readElem env (f+1) st (.elem S!"w:p" as cs) =
+      .ok ({ elements := .paragraph { styleId := some (c08_hId n),
+                                      styleName := (c08x_style env (c08x_pPr cs)).1.2,
+                                      numbering := num } r.elements :: r.extra,
+             extra := [],
+             messages := (c08x_style env (c08x_pPr cs)).2 ++ r.messages }, st1) ∧
+    visit cfg hdr (.paragraph { styleId := some (c08_hId n), styleName := (c08x_style env (c08x_pPr cs)).1.2,
+                                numbering := num } r.elements) =
+      (do let content ← visitAll cfg hdr r.elements
+          pure [.elem (c08_fresh (c08_hTag n)) (if cfg.ignoreEmpty then content else .forceWrite :: content)]) := by
+  refine ⟨by rw [C08_xml_paragraph_numbering env f st st1 as cs r hdel hcs, hnum, hid]; rfl, ?_⟩
+  rw [c08_visit_paragraph cfg hdr _ _ _ [c08_fresh (c08_hTag n)]
+    (by rw [hmap, hup]; exact c08_path_heading_id n h1 h6 _ num) rfl]
+  rfl
+
+/-- …TO A HEADING, by style name: a style whose name in styles.xml is `Heading <n>` up to ASCII case (and whose id is
+    not `Heading1..6`) gives `h<n>:fresh`, whatever the numbering -/
+theorem C08_xml_to_block_heading_name (env : REnv) (cfg : Cfg) (hdr : Bool) (f : Nat) (st st1 : RState) (as : Attrs)
+    (cs : List XmlNode) (r : ReadResult) (n : Nat) (num : Option NumLevel) (name : Str)
+    (hmap : cfg.styleMap = defaultStyleMap) (hup : cfg.upper = upperAscii)
+    (hdel : c08x_markDeleted cs = false)
+    (hcs : readAllWith (readElem env f) { st with deleted := [] } (st.deleted ++ cs) = .ok (r, st1))
+    (hnum : c08x_numbering env (c08x_pPr cs) = .ok num)
+    (h1 : 1 ≤ n) (h6 : n ≤ 6) (hs : c08_notHeadingId (c08x_style env (c08x_pPr cs)).1.1 = true)
+    (hname : (c08x_style env (c08x_pPr cs)).1.2 = some name)
+    (hn : upperAscii name = upperAscii (c08_hName n)) :
+    readElem env (f+1) st (.elem S!"w:p" as cs) =
+      .ok ({ elements := .paragraph { styleId := (c08x_style env (c08x_pPr cs)).1.1, styleName := some name,
+                                      numbering := num } r.elements :: r.extra,
+             extra := [],
+             messages := (c08x_style env (c08x_pPr cs)).2 ++ r.messages }, st1) ∧
+    visit cfg hdr (.paragraph { styleId := (c08x_style env (c08x_pPr cs)).1.1, styleName := some name,
+                                numbering := num } r.elements) =
+      (do let content ← visitAll cfg hdr r.elements
+          pure [.elem (c08_fresh (c08_hTag n)) (if cfg.ignoreEmpty then content else .forceWrite :: content)]) := by
+  refine ⟨by rw [C08_xml_paragraph_numbering env f st st1 as cs r hdel hcs, hnum, hname]; rfl, ?_⟩
+  rw [c08_visit_paragraph cfg hdr _ _ _ [c08_fresh (c08_hTag n)]
+    (by rw [hmap, hup]; exact c08_path_heading_name n h1 h6 _ hs name hn num) rfl]
+  rfl
+
+/-- …TO A PLAIN PARAGRAPH: no heading style id, no heading / note / `Normal` style name, and no numbering (or a level
+    index other than 0..4): no default mapping applies and the paragraph becomes `p:fresh` (with the
+    unrecognised-style warning iff it has a style id) -/
+theorem C08_xml_to_block_plain (env : REnv) (cfg : Cfg) (hdr : Bool) (f : Nat) (st st1 : RState) (as : Attrs)
+    (cs : List XmlNode) (r : ReadResult) (num : Option NumLevel)
+    (hmap : cfg.styleMap = defaultStyleMap) (hup : cfg.upper = upperAscii)
+    (hdel : c08x_markDeleted cs = false)
+    (hcs : readAllWith (readElem env f) { st with deleted := [] } (st.deleted ++ cs) = .ok (r, st1))
+    (hnum : c08x_numbering env (c08x_pPr cs) = .ok num)
+    (hs : c08_notHeadingId (c08x_style env (c08x_pPr cs)).1.1 = true)
+    (hn : c08_noEarlierName (c08x_style env (c08x_pPr cs)).1.2 = true)
+    (hN : (c08x_style env (c08x_pPr cs)).1.2.map upperAscii ≠ some S!"NORMAL")
+    (hl : c08_knownLevel num = false) :
+    readElem env (f+1) st (.elem S!"w:p" as cs) =
+      .ok ({ elements := .paragraph { styleId := (c08x_style env (c08x_pPr cs)).1.1,
+                                      styleName := (c08x_style env (c08x_pPr cs)).1.2,
+                                      numbering := num } r.elements :: r.extra,
+             extra := [],
+             messages := (c08x_style env (c08x_pPr cs)).2 ++ r.messages }, st1) ∧
+    visit cfg hdr (.paragraph { styleId := (c08x_style env (c08x_pPr cs)).1.1,
+                                styleName := (c08x_style env (c08x_pPr cs)).1.2,
+                                numbering := num } r.elements) =
+      (do (match (c08x_style env (c08x_pPr cs)).1.1 with
+            | some sid => warn (S!"Unrecognised paragraph style: " ++ pyOpt (c08x_style env (c08x_pPr cs)).1.2 ++
+                                S!" (Style ID: " ++ sid ++ S!")")
+            | none => pure ())
+          let content ← visitAll cfg hdr r.elements
+          pure [.elem (pathElem S!"p" true) (if cfg.ignoreEmpty then content else .forceWrite :: content)]) := by
+  refine ⟨by rw [C08_xml_paragraph_numbering env f st st1 as cs r hdel hcs, hnum]; rfl, ?_⟩
+  rw [c08_visit_paragraph_default cfg hdr _ _
+    (by rw [hmap, hup]; exact c08_path_none _ _ num hs hn hN hl)]
+  rfl
+
+/-- AN XML LIST PARAGRAPH AT LEVEL k BECOMES AN `li` INSIDE k+1 LISTS.  Under the hypotheses of `C08_xml_to_block`,
+    if converting the paragraph read succeeds with `nodes` (`hrun`), then `nodes` is the single list node of depth
+    `k+1` and kind `o` around the nodes `content` of the paragraph's children (with the force-write marker when empty
+    paragraphs are kept); and merging it (the `collapse` step) into ANY forest denoted by a stack `S` of open lists
+    and the children `c` of the innermost open item gives the forest denoted by `c08_step S c k o`: exactly `k+1`
+    lists are open, `2k+1` steps down the last-child spine sits the new `li:fresh` with exactly `content` as its
+    children, and the innermost list is `ol` iff `o`. -/
+theorem C08_xml_list_item_nesting (env : REnv) (cfg : Cfg) (hdr : Bool) (f : Nat) (st st1 : RState) (as : Attrs)
+    (cs : List XmlNode) (r : ReadResult) (k : Nat) (o : Bool) (s s' : ConvState) (nodes : List Node)
+    (S : List c08_Level) (c : List Node)
+    (hmap : cfg.styleMap = defaultStyleMap) (hup : cfg.upper = upperAscii)
+    (hdel : c08x_markDeleted cs = false)
+    (hcs : readAllWith (readElem env f) { st with deleted := [] } (st.deleted ++ cs) = .ok (r, st1))
+    (hnum : c08x_numbering env (c08x_pPr cs) = .ok (some ⟨natToStr k, o⟩)) (hk : k < 5)
+    (hs : c08_notHeadingId (c08x_style env (c08x_pPr cs)).1.1 = true)
+    (hn : c08_noEarlierName (c08x_style env (c08x_pPr cs)).1.2 = true)
+    (hrun : (visit cfg hdr (.paragraph { styleId := (c08x_style env (c08x_pPr cs)).1.1,
+                                          styleName := (c08x_style env (c08x_pPr cs)).1.2,
+                                          numbering := some ⟨natToStr k, o⟩ } r.elements)).run s = .ok (nodes, s'))
+    (hw : c08_wf S = true) (hi : c08_inert c = true) :
+    ∃ content,
+      (visitAll cfg hdr r.elements).run s =
+        .ok (content, s') ∧
+      nodes = [c08_listNode k o (if cfg.ignoreEmpty then content else .forceWrite :: content)] ∧
+      addC (c08_rend S c) (c08_listNode k o (if cfg.ignoreEmpty then content else .forceWrite :: content)) =
+        c08_rend (c08_step S c k o) (if cfg.ignoreEmpty then content else .forceWrite :: content) ∧
+      c08_descend (2 * k + 1)
+          (c08_rend (c08_step S c k o) (if cfg.ignoreEmpty then content else .forceWrite :: content)) =
+        some (c08_liFresh, if cfg.ignoreEmpty then content else .forceWrite :: content) ∧
+      (c08_step S c k o).length = k + 1 ∧
+      ∃ L, (c08_step S c k o)[k]? = some L ∧ L.litag = c08_liFresh ∧
+        L.ltag.name = (if o then S!"ol" else S!"ul") := by
+  rw [(C08_xml_to_block env cfg hdr f st st1 as cs r k o hmap hup hdel hcs hnum hk hs hn).2, c09_bind_ok] at hrun
+  obtain ⟨content, s1, h1, hrun⟩ := hrun
+  rw [c09_pure_ok] at hrun
+  obtain ⟨hnodes, hs1⟩ := hrun
+  subst hs1
+  refine ⟨content, h1, hnodes.symm, C08_lists_step k o _ S c hw hi,
+    (C08_item_sits_in_d_lists S c k o _ hw).1, (C08_item_depth_and_kind S c k o).1,
+    (C08_item_depth_and_kind S c k o).2⟩
+
+/-! examples: numbering.xml with a bullet numbering (levels 0, 1) and a decimal one; styles.xml naming `ListParagraph`;
+    the paragraph `<w:p><w:pPr><w:pStyle w:val="ListParagraph"/><w:numPr><w:ilvl w:val="1"/><w:numId w:val="5"/>
+    </w:numPr></w:pPr><w:r><w:t>item</w:t></w:r></w:p>` -/
+private def c08x_exNumXml : List XmlNode :=
+  [.elem S!"w:abstractNum" [(S!"w:abstractNumId", S!"0")]
+     [.elem S!"w:lvl" [(S!"w:ilvl", S!"0")] [.elem S!"w:numFmt" [(S!"w:val", S!"bullet")] []],
+      .elem S!"w:lvl" [(S!"w:ilvl", S!"1")] [.elem S!"w:numFmt" [(S!"w:val", S!"bullet")] []]],
+   .elem S!"w:abstractNum" [(S!"w:abstractNumId", S!"1")]
+     [.elem S!"w:lvl" [(S!"w:ilvl", S!"0")] [.elem S!"w:numFmt" [(S!"w:val", S!"decimal")] [],
+                                            .elem S!"w:pStyle" [(S!"w:val", S!"Numbered")] []]],
+   .elem S!"w:num" [(S!"w:numId", S!"5")] [.elem S!"w:abstractNumId" [(S!"w:val", S!"0")] []],
+   .elem S!"w:num" [(S!"w:numId", S!"6")] [.elem S!"w:abstractNumId" [(S!"w:val", S!"1")] []]]
+private def c08x_exStyles : Styles :=
+  { paragraph := [(some S!"ListParagraph", some S!"List Paragraph"), (some S!"Numbered", some S!"Numbered")] }
+private def c08x_exEnv : REnv :=
+  { numbering := (match readNumberingXml c08x_exNumXml c08x_exStyles with | .ok n => n | .error _ => {}),
+    styles := c08x_exStyles }
+private def c08x_exPara (pPr : List XmlNode) (t : Str) : List XmlNode :=
+  [.elem S!"w:pPr" [] pPr, .elem S!"w:r" [] [.elem S!"w:t" [] [.text t]]]
+private def c08x_exItem : List XmlNode :=
+  c08x_exPara [.elem S!"w:pStyle" [(S!"w:val", S!"ListParagraph")] [],
+               .elem S!"w:numPr" [] [.elem S!"w:ilvl" [(S!"w:val", S!"1")] [], .elem S!"w:numId" [(S!"w:val", S!"5")] []]]
+    S!"item"
+
+example : readNumberingXml c08x_exNumXml c08x_exStyles = .ok c08x_exEnv.numbering := by rfl
+/-- the hypotheses of `C08_xml_to_block` / `C08_xml_list_item_nesting` for the item: level 1, bullet -/
+example : c08x_markDeleted c08x_exItem = false ∧
+    c08x_numPr (c08x_pPr c08x_exItem) = (some S!"5", some S!"1") ∧
+    c08x_numbering c08x_exEnv (c08x_pPr c08x_exItem) = .ok (some ⟨natToStr 1, false⟩) ∧
+    (c08x_style c08x_exEnv (c08x_pPr c08x_exItem)).1 = (some S!"ListParagraph", some S!"List Paragraph") ∧
+    c08_notHeadingId (c08x_style c08x_exEnv (c08x_pPr c08x_exItem)).1.1 = true ∧
+    c08_noEarlierName (c08x_style c08x_exEnv (c08x_pPr c08x_exItem)).1.2 = true :=
+  ⟨rfl, rfl, rfl, rfl, rfl, rfl⟩
+example : ∃ r st1, readAllWith (readElem c08x_exEnv 3) {} c08x_exItem = .ok (r, st1) ∧
+    r.elements = [.run {} [.text S!"item"]] := ⟨_, _, rfl, rfl⟩
+/-- the hypotheses of `C08_xml_numbering_from_definitions` for it -/
+example : lookupLast (some S!"5") c08x_exEnv.numbering.nums = some S!"0" ∧
+    (lookupLast (some S!"0") c08x_exEnv.numbering.abstractNums).map (·.numStyleLink) = some none := by decide +kernel
+/-- read and converted with the default style map: `ul|ol > li > ul > li:fresh > item` -/
+example :
+    (match readElem c08x_exEnv 4 {} (.elem S!"w:p" [] c08x_exItem) with
+      | .ok (rr, _) => ((visitAll { styleMap := c08_defaultMapValue } false rr.elements).run {}).toOption.map (·.1)
+      | .error _ => none) = some [c08_listNode 1 false [.text S!"item"]] := by rfl
+/-- no `w:numPr`, but the style `Numbered` is the `w:pStyle` of level 0 of the decimal numbering: `ol > li:fresh` -/
+example : c08x_numbering c08x_exEnv [.elem S!"w:pStyle" [(S!"w:val", S!"Numbered")] []] =
+    .ok (some ⟨S!"0", true⟩) := by rfl
+example :
+    (match readElem c08x_exEnv 4 {} (.elem S!"w:p" []
+        (c08x_exPara [.elem S!"w:pStyle" [(S!"w:val", S!"Numbered")] []] S!"one")) with
+      | .ok (rr, _) => ((visitAll { styleMap := c08_defaultMapValue } false rr.elements).run {}).toOption.map (·.1)
+      | .error _ => none) = some [c08_listNode 0 true [.text S!"one"]] := by rfl
+/-- the paragraph's own `w:numPr` wins over the style's numbering, even when its num is undefined: a plain `p` -/
+example : c08x_numbering c08x_exEnv
+    [.elem S!"w:pStyle" [(S!"w:val", S!"Numbered")] [],
+     .elem S!"w:numPr" [] [.elem S!"w:ilvl" [(S!"w:val", S!"0")] [], .elem S!"w:numId" [(S!"w:val", S!"9")] []]] =
+    .ok none := by rfl
+/-- a deleted paragraph mark -/
+example : c08x_markDeleted [.elem S!"w:pPr" [] [.elem S!"w:rPr" [] [.elem S!"w:del" [] []]]] = true := by decide
+
 
 end Mammoth
